@@ -77,7 +77,8 @@ def case(draw):
     if cmds[0]["c"] in ("g", "v"):
         cmds = cmds[:1]            # a nested global takes the rest of the line as its own command list
     return {"lines": lines, "g": spell(draw, {"c": draw(st.sampled_from(["g", "g", "v"])), "a": a, "pat": draw(exgen.simple_pat()), "cmds": cmds}),
-            "blk": draw(st.sampled_from([["T1"], ["T1", "T2"], [], ["T foo"]])),
+            # (blocks of several lines that the pattern is likely to match: a line that arrives with a stale mark would be visited)
+            "blk": draw(st.sampled_from([["T1"], ["T1", "T2"], [], ["T foo"], ["T1", "T2"], ["x foo", "y foo", "z foo"], ["T bar", "T baz foo"]])),
             # an earlier global that is rejected (pattern does not compile / range does not resolve) must leave no state behind
             "prior": draw(st.sampled_from(["", "", "g/[a/d\n", "99g/x/d\n", "g/(/d\n", "v/[[:alpha:/d\n"]))}
 
@@ -86,7 +87,49 @@ def strategy(tier):
     return case()
 
 
+def extra(env, tier, seed):
+    """nesting depth: N unaddressed globals around one with a range - the innermost visits every line of its range, or the line is refused whole"""
+    fails = []
+    n = 0
+    for dep in range(0, 13):
+        for inner in ("1,$g/a/s/$/x/", "%v/b/s/$/x/", ".,$g/a/s/$/x/"):
+            c = {"kind": "depth", "dep": dep, "inner": inner}
+            o = run_depth(env, c)
+            n += 1
+            if not o.ok and not o.inconclusive:
+                fails.append({"case": c})
+    return [{"name": "nesting_depth_all_or_nothing", "exhaustive": True, "evaluations": n, "distinct_nontrivial": n,
+             "space": "0..12 enclosing g/a/ x 3 innermost ranged globals, 3 matching lines",
+             "samples": ["g/a/g/a/g/a/1,$g/a/s/$/x/ on a a a: every line gets one x per visit of the outer global, or no line changes at all"],
+             "violations": fails}]
+
+
+def run_depth(env, c):
+    d = env.fresh()
+    runner.write_file(d, "f", b"a\na\na\n")
+    script = "g/a/" * c["dep"] + c["inner"] + "\nw! out\n"
+    r = runner.run_editor(env.paths["vi"], ["-s", "-e", "f"], script.encode() + runner.EX_TRAILER, d)
+    if r.timeout:
+        return Outcome(True, False, ["depth", "timeout"], inconclusive=True)
+    if r.crashed():
+        return Outcome(False, True, ["depth"], detail={"why": "editor crashed", "sig": r.signature(), "script": script})
+    got = runner.read_file(d, "out")
+    # every enclosing global visits each of the 3 lines once and runs the rest there; the innermost appends one x to every line of its range
+    if c["dep"] == 0:
+        full = ["ax", "ax", "ax"]
+    elif c["inner"].startswith("."):
+        full = ["ax", "axx", "axxx"]
+    else:
+        full = ["axxx", "axxx", "axxx"]
+    if got not in (gen.to_bytes(full), b"a\na\na\n"):
+        return Outcome(False, True, ["depth"], detail={"why": "nested globals %d deep visited some lines of the innermost range only" % (c["dep"] + 1), "script": script,
+                                                      "got": got, "want": gen.to_bytes(full), "or": "a a a unchanged (refused)"})
+    return Outcome(True, True, ["depth"])
+
+
 def run_case(env, c):
+    if c.get("kind") == "depth":
+        return run_depth(env, c)
     d = env.fresh()
     orig = list(c["lines"])
     pre = orig + ["MARKER"]
